@@ -92,6 +92,10 @@ def run_case(case, obs=None):
                 cmd = cls(op, **kw)
         else:
             cmd = cls(op, **kw)
+    except MemoryError:
+        if wide:
+            return []          # the shim no longer covers where the library allocates: a limit of the harness, not a finding
+        raise
     except Exception as e:
         return [("construct/%s.%s/%s" % (st, key, name), "%s(%s.%s, %r) raised %s: %s" % (name, st, key, point, type(e).__name__, e))]
     cdb = bytes(cmd.cdb)
